@@ -183,6 +183,7 @@ class TxSpy:
         m.d[domain] += prev.eq(tx_active)
         with m.If(host.slot_end):
             m.d[domain] += [self.count.eq(0), self.packets.eq(0), self.pid.eq(0)]
+            m.d[domain] += [b.eq(0) for b in self.bytes]       # no stale bytes of an earlier slot's longer packet
         with m.Elif(tx_valid):
             with m.If(self.count <= nbytes):
                 m.d[domain] += self.count.eq(self.count + 1)
